@@ -223,13 +223,32 @@ def kid_label(case, name) -> str:
 # ---------------------------------------------------------------------------------------------------
 # the real server on a real tree
 # ---------------------------------------------------------------------------------------------------
+ROOT_BASE = None      # per-run scratch directory (set by the parent before the pool forks; removed by the parent)
+
+
+def new_root_base():
+    global ROOT_BASE
+    from harness import tlc
+    ROOT_BASE = tlc.new_scratch("dirroots")
+    return ROOT_BASE
+
+
+def drop_root_base():
+    global ROOT_BASE
+    if ROOT_BASE:
+        shutil.rmtree(ROOT_BASE, ignore_errors=True)
+    ROOT_BASE = None
+
+
 class DirWorld:
     def __init__(self, lst: str, ignorepatt: str):
+        import tempfile
         from harness import envsub
         from harness.world import World
         self.envsub = envsub
         self.lst = lst
-        self.w = World(handlers="default" if lst == "default" else DIR_HANDLERS,
+        root = tempfile.mkdtemp(prefix="r-", dir=ROOT_BASE) if ROOT_BASE else None
+        self.w = World(root=root, handlers="default" if lst == "default" else DIR_HANDLERS,
                        overrides={("handlers.dir.DirHandler", "cachetime"): "0",
                                   ("handlers.dir.DirHandler", "ignorepatt"): ignorepatt.replace("%", "%%")})
         self.cachefile = self.w.config.get("handlers.dir.DirHandler", "cachefile")
